@@ -342,7 +342,7 @@ PROPS['C09'] = {
 }
 PROPS['C13'] = {
     'theorems': ['RQ.Write.writeRej_eq', 'RQ.Write.C13_rej_parses', 'RQ.Write.C13_no_rej_on_success'],
-    'verdict': 'SPEC',
+    'verdict': 'C13',
     'jobs': push_jobs(['inv=2'], ['inv=3']),
     'nontrivial': lambda l: '2e72656a:' in l.split('|=>|')[-1],
     'histogram': push_hist,
